@@ -752,8 +752,8 @@ def build_models():
         (R(r"^<str as ToOwned>::to_owned$"), m_identity),
         (R(r"^Box::<.*>::new$"), m_identity),
         (R(r"^std::io::Error::new::<.*>$"), m_io_error_new),
-        (R(r"^<&\[u8; \d+\] as PartialEq>::ne$|^<&?\[u8\] as PartialEq<\[u8; \d+\]>>::ne$|^<\[u8; \d+\] as PartialEq>::ne$"), m_eq_bytes(True)),
-        (R(r"^<&\[u8; \d+\] as PartialEq>::eq$|^<&?\[u8\] as PartialEq<\[u8; \d+\]>>::eq$|^<\[u8; \d+\] as PartialEq>::eq$"), m_eq_bytes(False)),
+        (R(r"^<&?\[u8(?:; \d+)?\] as PartialEq(?:<&?\[u8(?:; \d+)?\]>)?>::ne$"), m_eq_bytes(True)),
+        (R(r"^<&?\[u8(?:; \d+)?\] as PartialEq(?:<&?\[u8(?:; \d+)?\]>)?>::eq$"), m_eq_bytes(False)),
         (R(r"^<Option<.*> as PartialEq>::ne$"), m_option_eq(True)),
         (R(r"^<Option<.*> as PartialEq>::eq$"), m_option_eq(False)),
         (R(r"^<.* as std::io::Read>::(?P<m>read|read_exact|take)$"), m_read_trait),
@@ -766,4 +766,5 @@ def build_models():
         (R(r"^String::as_bytes$|^core::str::<impl str>::as_bytes$"), m_string_as_bytes),
         (R(r"^<.* as Fn<\(.*\)>>::call$"), m_fn_call),
     ]
-    return M
+    from .models2 import container_models
+    return M + container_models()
